@@ -254,11 +254,13 @@ def run(tier, replay=None):
                         signature={'component': 'c_decode:' + kind})
     # kernel -> daemon: events and replies encoded with the kernel structures
     lines, expect = [], []
-    for fam, sa, da in ((2, '192.168.0.1', '192.168.0.2'), (10, '2001:db8::1', '2001:db8::2')):
+    # (IPv6 addresses whose upper 96 bits are zero - loopback, IPv4-compatible - and the highest ones: an address is 16 octets of its family, not a number)
+    for fam, sa, da in ((2, '192.168.0.1', '192.168.0.2'), (10, '2001:db8::1', '2001:db8::2'), (10, '::1', '::2'), (10, '::192.168.0.1', '::192.168.0.2'),
+                        (10, 'ffff:ffff:ffff:ffff:ffff:ffff:ffff:ffff', '::'), (2, '0.0.0.1', '255.255.255.255')):
         for sport, dport, proto, index in ((0, 0, 0, 9), (8765, 23, 6, (5 << 3) | 1), (65535, 1, 17, (2 ** 20 << 3) | 1), (256, 255, 58, 1)):
             lines.append(f'acquire family={fam} daddr={da} saddr={sa} sel_family={fam} sel_saddr={sa} sel_daddr={da} sport={sport} dport={dport} proto={proto} index={index} seq=77')
             expect.append(('acquire', fam, sa, da, sport, dport, proto, index))
-    for fam, da in ((2, '10.1.2.3'), (10, '2001:db8::9')):
+    for fam, da in ((2, '10.1.2.3'), (10, '2001:db8::9'), (10, '::1'), (10, '::10.1.2.3')):
         for spi, proto, hard in (('00000001', 50, 0), ('01020304', 51, 1), ('ffffffff', 50, 1)):
             lines.append(f'expire family={fam} daddr={da} spi={spi} proto={proto} hard={hard}')
             expect.append(('expire', fam, da, spi, proto, hard))
@@ -270,6 +272,7 @@ def run(tier, replay=None):
             got = (header.type, str(msg.id.daddr.to_ipaddr(attributes[xfrm.XFRMA_TMPL].family)), str(msg.saddr.to_ipaddr(attributes[xfrm.XFRMA_TMPL].family)),
                    str(msg.sel.saddr.to_ipaddr(msg.sel.family)), str(msg.sel.daddr.to_ipaddr(msg.sel.family)), msg.sel.sport, msg.sel.dport, msg.sel.proto,
                    msg.policy.index, msg.policy.index >> 3)
+            sa, da = str(ipaddress.ip_address(sa)), str(ipaddress.ip_address(da))          # (one textual form)
             want = (fakekernel.C('XFRM_MSG_ACQUIRE'), da, sa, sa, da, sport, dport, proto, index, index >> 3)
         else:
             _, fam, da, spi, proto, hard = exp
